@@ -31,7 +31,8 @@ theorem locationLessF_eq (a b : Loc) : Gen.locationLessF a b = Loc.less a b := b
 model's `Table.lessF`: a `source` feature sorts before every other feature, otherwise the locations
 decide -/
 theorem featureSliceLess_eq (f g : Feature) : Gen.featureSliceLess f g = Table.lessF f g := by
-  simp only [Gen.featureSliceLess, Table.lessF, locationLessF_eq]
+  by_cases h1 : f.key = "source" <;> by_cases h2 : g.key = "source" <;>
+    simp [Gen.featureSliceLess, Table.lessF, locationLessF_eq, h1, h2]
 
 -- non-vacuity: the three paths of the generated function
 example : Gen.featureSliceLess ⟨"source", .point 9, []⟩ ⟨"gene", .point 1, []⟩ = true := by decide
